@@ -163,3 +163,9 @@ func (PoseidonGate) Eval(v *Vars) []E {
 	}
 	return c
 }
+
+// Exported single-layer helpers over E (used to check the circuit's extension-field layer helpers).
+func SBox7E(x E) E                      { return sbox7E(x) }
+func MdsE(s [12]E) [12]E                { return mdsE(s) }
+func PartialInitE(s [12]E) [12]E        { return partialInitE(s) }
+func PartialFastE(s [12]E, r int) [12]E { return partialFastE(s, r) }
